@@ -269,10 +269,28 @@ def _work(job):
     return (job, "killed" if hits else "survived", hits)
 
 
+def props_mentioning(path):
+    """Properties whose rule module (or a sibling it imports) names the module `path`."""
+    import re
+    pdir = os.path.join(os.path.dirname(os.path.abspath(__file__)), "..", "sa", "props")
+    text = {}
+    for fn in os.listdir(pdir):
+        if re.fullmatch(r"c\d\d\.py", fn):
+            text[fn[:-3].upper()] = open(os.path.join(pdir, fn)).read()
+    direct = {pid for pid, t in text.items() if f'"{path}"' in t}
+    out = set(direct)
+    for pid, t in text.items():
+        for dep in re.findall(r"from \.(c\d\d) import", t):
+            if dep.upper() in direct:
+                out.add(pid)
+    return sorted(out)
+
+
 def main():
     ap = argparse.ArgumentParser()
     ap.add_argument("prop")
     ap.add_argument("--all-props", action="store_true")
+    ap.add_argument("--relevant", action="store_true", help="run the rules of every property whose module names the mutated file")
     ap.add_argument("--props", default="")
     ap.add_argument("--funcs", default="")
     ap.add_argument("--root", default="/repo")
@@ -291,6 +309,8 @@ def main():
     else:
         pids = [a.prop]
     anchored = anchored_functions(prop, a.root)
+    if a.relevant:
+        pids = sorted(set(pids) | {p for path in anchored for p in props_mentioning(path)})
     if a.funcs:
         want = set(a.funcs.split(","))
         anchored = {p: {q for q in qs if q in want} for p, qs in anchored.items()}
